@@ -233,3 +233,10 @@ Theorem C07_edits_stale_cache_documented : exists gs es hs,
   fst (run_hist has_mono (monos_g true) gs gs es hs []) <> hist_pure has_mono (monos_g true) gs gs es hs.
 Proof. exact edit_stale_witness. Qed.
 Print Assumptions C07_edits_stale_cache_documented.
+
+(** ... and an in-place edit of an object without cache entries (not yet queried by a filtering engine) is harmless for EVERY engine *)
+Theorem C07_edit_uncached :
+  forall vf2b enum gs es i g' c qs, cache_inv gs c -> (forall na, cache_get (i, na) c = None) -> (i < length gs)%nat ->
+    run_from vf2b enum (set_nth gs i g') es qs c = map (fun q => fst (step vf2b enum (set_nth gs i g') es q [])) qs.
+Proof. exact edit_uncached. Qed.
+Print Assumptions C07_edit_uncached.
